@@ -173,3 +173,40 @@ def stmt_switches(desc, y):
                 out.append({"prop": "C05", "key": {"clause": "switch_off_" + name + "_changes_other"}, "what": f"switching {name} off changes the reported {k!r}", "input": dict(desc, y=y, switch=name)})
                 break
     return out
+
+
+def stmt_heatflow(rng, n=6):
+    """C04: with exactly one populated state per species the ion-ion heat exchange of each has the sign of T_other - T_own"""
+    import ebisim
+    from ebisim.simulation._result import Rate
+    out = []
+    for k in range(n):
+        zs = rng.choice([2, 6, 10, 18, 19, 26, 36, 54], size=2, replace=False)
+        dev, dkw = gens.make_device(rng, n_grid=60)
+        tdesc = []
+        for z in zs:
+            tdesc.append(("ions", int(z), float(10 ** rng.uniform(5, 8)), 1.0, int(rng.integers(1, min(int(z), 12) + 1)), False))
+        opts, okw = gens.make_options(rng, COLLISIONAL_THERMALISATION=True, RADIAL_DYNAMICS=False)
+        desc = {"device": dkw, "targets": tdesc, "gases": [], "options": {a: b for a, b in okw.items() if isinstance(b, bool)}}
+        m = advcorr.rebuild(desc)
+        nq = m.nq
+        y = np.concatenate([np.full(nq, 1e-9), np.full(nq, 1.0)])
+        idx = []
+        for i, t in enumerate(tdesc):
+            j = int(m.lb[i]) + t[4]; idx.append(j); y[j] = t[2]
+        # temperatures: the heavier species hotter in kT but colder in kT/A in half of the cases
+        A = [float(m.a[j]) for j in idx]
+        T0 = float(10 ** rng.uniform(0.5, 3))
+        r = float(rng.uniform(1.05, 0.95 * max(A) / min(A))) if (k % 2 == 0 and max(A) / min(A) > 1.2) else float(rng.uniform(1.05, 20))
+        hot = int(np.argmax(A)) if k % 2 == 0 else int(rng.integers(0, 2))
+        y[nq + idx[hot]] = T0 * r; y[nq + idx[1 - hot]] = T0
+        dy, ex = advcorr.impl_rhs(m, y)
+        ct = np.array(ex[Rate.T_COLLISIONAL_THERMALISATION])
+        for a, b in ((0, 1), (1, 0)):
+            want = np.sign(y[nq + idx[b]] - y[nq + idx[a]])
+            if np.sign(ct[idx[a]]) != want:
+                out.append({"prop": "C04", "key": {"clause": "heat_hot_to_cold"}, "input": dict(desc, y=y),
+                            "what": f"species A={A[a]:.0f} at kT={y[nq+idx[a]]:.4g} eV exchanging with A={A[b]:.0f} at kT={y[nq+idx[b]]:.4g} eV has thermalisation rate {ct[idx[a]]!r} (heat must flow from hot to cold)"})
+                break
+        if out: break
+    return out
